@@ -28,7 +28,10 @@ def make_tree(r, root, nfiles):
     elf, _ = sg.minimal_elf()
     paths = []
     for i in range(nfiles):
-        d = os.path.join(root, *["d%d" % r.randint(0, 2) for _ in range(r.randint(0, 2))])
+        # nested directories, some with names starting with one or two dots (only "." and ".." themselves are not walked)
+        d = os.path.join(root, *[r.choice(["d0", "d1", "d2", ".hid", "..data", ".d"]) for _ in range(r.randint(0, 2))])
+        if i == 0: d = os.path.join(root, ".cache")
+        if i == 1: d = os.path.join(root, "d1", "..rev")
         os.makedirs(d, exist_ok=True)
         kind = r.choice(["text", "text", "pe", "elf", "empty", "xs", "wide"])
         data = {"text": b"hello MK1; world " * r.randint(1, 3), "pe": pe + b"MK1;", "elf": elf, "empty": b"", "xs": b"x" * r.randint(2, 9) + b"MK2;",
@@ -119,6 +122,40 @@ def c18(res, tier, seed):
                             evs.append({"op": f[0], "seq": int(f[1]), "head": int(f[2]), "tail": int(f[3]), "path": f[4]})
                     qrecords.append({"kind": "queue", "q": 2, "events": evs})
                     qowners.append((n, opts, len(evs)))
+    # many files that each print many lines, scanned by several threads at once: every line must come out whole (each report is
+    # printed under the output mutex), with every option that adds a fragment to the line
+    big = os.path.join(wd, "bigtree")
+    bpaths = make_tree(r, big, 40 if tier == "quick" else 120)
+    for p in bpaths:
+        if p.endswith("_text.bin") or p.endswith("_xs.bin"):
+            open(p, "ab").write(b"MK1; MK2; " * 40)
+    for opts in ([["-e", "-s"], ["-e"], ["-e", "-m", "-g", "-s", "-L"]] if tier == "quick" else [["-e", "-s"], ["-e"], ["-e", "-m", "-g", "-s", "-L"], ["-s", "-X"], ["-e", "-c"]]):
+        ref = collections.Counter()
+        for p in bpaths:
+            rc, out, err = run([yara_a] + EXT_DEFAULT + opts + [rules_path, p])
+            if rc != 0:
+                raise yv.Broken("reference run failed on %s: %s" % (p, err[-300:]))
+            if "-c" in opts:
+                out = "\n".join("%s: %s" % (p, l) for l in out.split("\n") if l.strip())
+            ref += lines_of(out)
+        for n in ([2, 8] if tier == "quick" else [2, 4, 8, 16]):
+            for rep in range(3 if tier == "quick" else 6):
+                if hangs[0] > 3:
+                    continue
+                rc, out, err = run([yara_a, "-p", str(n), "-r"] + EXT_DEFAULT + opts + [rules_path, big])
+                res.count(1, ("big", tuple(opts), n, rep))
+                if rc == -9:
+                    hangs[0] += 1
+                got = lines_of(out)
+                if rc != 0:
+                    res.violation("yara -p %d %s on the large tree: exit status %s, stderr %s" % (n, " ".join(opts), rc, err[-200:].replace("\n", " | ")),
+                                  yv.save_replay("C18", "bigrc_%d_%s" % (n, "".join(opts).replace("-", "")), {"stderr": err[-5000:]}))
+                elif got != ref:
+                    missing = list((ref - got).elements())[:5]; extra = list((got - ref).elements())[:5]
+                    res.violation("yara -p %d %s on the large tree prints a different set of lines than per-file single-threaded runs: missing %s extra %s" % (n, " ".join(opts), missing, extra),
+                                  yv.save_replay("C18", "bigdiff_%d_%s" % (n, "".join(opts).replace("-", "")), {"missing": missing, "extra": extra, "opts": opts, "threads": n}))
+                else:
+                    res.cov["traces_validated_against_impl"] += 1
     bad, known, states = func.tlc_judge2(qrecords, wd, "c18_queue")
     res.cov["states"] += states; res.cov["transitions"] += states
     for b in bad:
